@@ -12,8 +12,10 @@
   STV-Gregory with a homogeneous quota (C03).  The compositions `PreConverted(converter, evaluator)` of the family table are
   defined in VotelibModel/ScaleFamilies.lean.  Proof technique: a simulation relation `state₂ = k • state₁` preserved by
   every step (Lemmas/Scale*.lean, Lemmas/HAScale.lean) + `getNBest` depends on the order of the values only (C09).
-  Not proved (listed in the evidence as `unproved`): Baldwin, Oklahoma, Bucklin / Tideman with several seats;
-  MajorityJudgment's default tie-break is scale dependent (open finding).
+  PreferenceAddition (Bucklin / Oklahoma, any coefficients, any number of seats) and Baldwin: the n-seat models of the C08
+  extension (VotelibModel/ShapeSequential.lean).
+  Not proved (listed in the evidence as `unproved`): Tideman alternative with several seats (the implementation always raises
+  there); MajorityJudgment's default tie-break is scale dependent (open finding).
 -/
 import VotelibProofs.Props.C09
 import VotelibProofs.Lemmas.HAScale
@@ -25,6 +27,7 @@ import VotelibProofs.Lemmas.ScaleApproval
 import VotelibProofs.Lemmas.ScaleStar
 import VotelibProofs.Lemmas.ScaleBucklin
 import VotelibProofs.Lemmas.ScaleSTV
+import VotelibProofs.Lemmas.ScaleSequential
 import VotelibModel.ScaleFamilies
 import VotelibModel.Gen.Quota
 import Mathlib.Tactic.Ring
@@ -90,7 +93,8 @@ theorem quotaSelector_scale (quota : Rat → Nat → Rat) (hq : Homogeneous quot
   unfold scaleVotes at this
   rw [this]
 
-/-- **RelativeThreshold** (threshold.py L77-92): shares are ratios of two vote quantities.  Includes the refusal
+/-- **RelativeThreshold** (threshold.py L77-92), for ANY rational threshold `t` — 1/20, the exact value of the double
+    0.05 (3602879701896397/2^56) or of `Decimal('.05')`: shares are ratios of two vote quantities.  Includes the refusal
     (`ZeroDivisionError` on a zero total) — it is the same refusal on both sides. -/
 theorem relativeThreshold_scale (t : Rat) (eq : Bool) (k : Rat) (hk : 0 < k) (votes : Votes) :
     relativeThreshold t eq (scaleVotes k votes) = relativeThreshold t eq votes :=
@@ -269,6 +273,30 @@ theorem bucklin_scale (k : Rat) (hk : 0 < k) (p : Convert.RProfile) :
 theorem bucklinWhole_scale (k : Rat) (hk : 0 < k) (p : Convert.RProfile) :
     Mono.evalBucklin (scaleProfile k p) = Mono.evalBucklin p := VL.Scale.evalBucklin_scale k hk p
 
+/-! ### the multi-seat sequential evaluators (models of the C08 extension, VotelibModel/ShapeSequential.lean) -/
+
+/-- **PreferenceAddition with ANY coefficient function, ANY number of seats, with or without the decoupling of shared
+    ranks**: the decoupling is linear, every round's totals `Σ w·coef(i)` and the majority quota `Σ/2` scale by `k`, the
+    elected list and the deletions of elected candidates are the same in every round; `Tie.reconcile` reads no vote. -/
+theorem preferenceAddition_scale (k : Rat) (hk : 0 < k) (coef : Nat → Rat) (split : Bool) (p : Convert.RProfile) (n : Nat) :
+    ShapeSeq.preferenceAddition coef split (scaleProfile k p) n = ShapeSeq.preferenceAddition coef split p n :=
+  VL.Scale.preferenceAddition_scale k hk coef split p n
+
+/-- **Bucklin, any number of seats** (`PreferenceAddition()`) -/
+theorem bucklinSeats_scale (k : Rat) (hk : 0 < k) (p : Convert.RProfile) (n : Nat) :
+    ShapeSeq.preferenceAddition ShapeSeq.coefBucklin true (scaleProfile k p) n
+      = ShapeSeq.preferenceAddition ShapeSeq.coefBucklin true p n := preferenceAddition_scale k hk _ true p n
+
+/-- **Oklahoma, any number of seats** (`PreferenceAddition(coefficients=lambda i: Fraction(1, i + 1))`) -/
+theorem oklahoma_scale (k : Rat) (hk : 0 < k) (p : Convert.RProfile) (n : Nat) :
+    ShapeSeq.preferenceAddition ShapeSeq.coefOklahoma true (scaleProfile k p) n
+      = ShapeSeq.preferenceAddition ShapeSeq.coefOklahoma true p n := preferenceAddition_scale k hk _ true p n
+
+/-- **Baldwin, any number of seats**: Borda scores are linear in the ballot weights, `RANKED_SUBSETTER` is linear, every
+    elimination round reads the (negated) scores through `get_n_best` only; refusals of the Borda scorer included. -/
+theorem baldwin_scale (k : Rat) (hk : 0 < k) (p : Convert.RProfile) (n : Nat) :
+    ShapeSeq.baldwin (scaleProfile k p) n = ShapeSeq.baldwin p n := VL.Scale.baldwin_scale k hk p n
+
 /-! ### transferable vote -/
 
 /-- a ranked profile (STV model) with every ballot weight multiplied by `k` -/
@@ -347,6 +375,12 @@ example : Mono.evalBucklinSplit (scaleProfile ((10:Rat)^25 + 7)
     [([.one 1, .one 2, .one 3], 2), ([.one 3, .shared [1, 2]], 2), ([.one 2], 1)]) = .ok [Slot.cand 2] := by decide +kernel
 example : STV.selectorEvaluate STV.gregory ⟨some Gen.Quota.hare, true, false, some (-1)⟩ (scaleSTV ((10:Rat)^25 + 7)
     [([.one 1, .one 2], 5), ([.one 2, .one 3], 2), ([.shared [2, 3], .one 1], 2), ([.one 3], 1)]) 2 [] = .ok [1, 2] := by
+  decide +kernel
+example : ShapeSeq.baldwin (scaleProfile ((10:Rat)^25 + 7)
+    [([.one 1, .one 2, .one 3], 2), ([.one 3, .shared [1, 2]], 2), ([.one 2, .one 3], 1)]) 2 = .ok [Slot.cand 2, Slot.cand 1] := by
+  decide +kernel
+example : ShapeSeq.preferenceAddition ShapeSeq.coefOklahoma true (scaleProfile ((10:Rat)^25 + 7)
+    [([.one 1, .one 2, .one 3], 2), ([.one 3, .shared [1, 2]], 2), ([.one 2, .one 3], 1)]) 2 = .ok [Slot.cand 3, Slot.tie [1, 2]] := by
   decide +kernel
 example : relativeThreshold (1/3) false (scaleVotes ((10:Rat)^25 + 7) [(1,2),(2,1),(3,3)]) = .ok [3] := by decide +kernel
 example : getNBest (scaleVotes ((10:Rat)^25 + 7) [(1,5),(2,3),(3,3)]) 2 = [Slot.cand 1, Slot.tie [2,3]] := by decide +kernel
